@@ -91,7 +91,7 @@ def run_one(h, keys):
     m = re.search(r'Verification Time: ([0-9.]+)s', out)
     solver_s = float(m.group(1)) if m else 0.0
     res = dict(cmd=cmd, wall_s=wall, solver_s=solver_s, cached=False)
-    fails = re.findall(r'Check \d+: (\S+)\n\s+- Status: FAILURE\n\s+- Description: "([^"]*)"\n\s+- Location: ([^\n]*)', out)
+    fails = re.findall(r'Check \d+: ([^\n]*)\n\s+- Status: FAILURE\n\s+- Description: "([^"]*)"\n\s+- Location: ([^\n]*)', out)
     if p.returncode == 124:
         res.update(status='undecided', message='timeout after %ds' % h.get('timeout', 900))
     elif 'VERIFICATION:- SUCCESSFUL' in out:
